@@ -180,3 +180,4 @@ from contracts import c20_knxip_parse as _c20  # noqa: E402
 from pyvc.api import rely_on  # noqa: E402
 
 rely_on("C22", _c20.frame_from_knx_total)
+rely_on("C22", _c20.the_body_parser_is_handed_exactly_the_announced_octets)
